@@ -81,6 +81,7 @@ IO = {0x1111: dict(codec=('B', 1), mask={'a': 1, 'b': 2, 'c': 0x80}, mask_size=1
       0x2222: dict(codec=('B', 2)),
       0x3333: dict(codec=('B', 3), composite=True),
       0x4444: dict(codec=('B', 2), mask={'x': 0x0100, 'y': 0x8000, 'z': 1}),
+      0x4545: dict(codec=('B', 1), mask={'pedalA': 0x20, 'pedalB': 0x10, 'pedals': 0x30, 'all': 0xFF}),      # masks sharing bits: the enable mask is the OR, not the sum
       0x5555: dict(codec=('B', 1), mask_size=2),
       0x6666: dict(codec=('B', 1), mask={'big': 0x1FF}, mask_size=1),
       0x7777: dict(codec=('raw', 2), mask={'m': 0x00FF00, 'n': 1 << 55, 'o': 1 << 56}),
@@ -243,6 +244,12 @@ def gen_io(rng, n):
         if e is None and default is not None and 0 <= did <= 0xFFFF:
             e = dict(codec=default)
         has_vals = rng.random() < 0.7
+        focus = rng.random() < 0.2          # composite identifiers with named masks and values: the enable-mask arithmetic
+        if focus:
+            did = rng.choice([d_ for d_, e_ in IO.items() if 'mask' in e_])
+            e = IO[did]
+            has_vals = True
+            cp = rng.choice([3, 3, 0, None])
         vals = None
         pyvals = None
         vals_ok = True
@@ -256,7 +263,7 @@ def gen_io(rng, n):
                 pyvals = rng.choice([list(vals), IOValues(*vals)])
             else:
                 pyvals = [vals]
-        mchoice = rng.choice(['none', 'none', 'T', 'F', 'named', 'named', 'named'])
+        mchoice = 'named' if focus else rng.choice(['none', 'none', 'T', 'F', 'named', 'named', 'named'])
         masks = None
         mline = '-'
         mask_ok = True
@@ -631,6 +638,7 @@ def gen_simple(rng, n):
 
 
 FIXED_BAUD = {9600, 19200, 38400, 57600, 115200, 125000, 250000, 500000, 1000000}
+BAUD_BY_ID = {1: 9600, 2: 19200, 3: 38400, 4: 57600, 5: 115200, 0x10: 125000, 0x11: 250000, 0x12: 500000, 0x13: 1000000}
 
 
 def in_domain_simple(e, std):
@@ -663,9 +671,13 @@ def in_domain_simple(e, std):
         if ct in (1, 2):
             if rate is None:
                 return False
+            if ty == 'f' and rate not in FIXED_BAUD:
+                return False                    # the Baudrate object itself cannot be built
             if ct == 1:
                 return rate in FIXED_BAUD if ty in ('f', 's') else 0 <= rate <= 0xFF
-            return 0 <= rate <= 0xFFFFFF if ty in ('s', 'f') else False
+            if ty == 'i':
+                return rate in BAUD_BY_ID       # a standard identifier stands for its rate; sent as that specific rate
+            return 0 <= rate <= 0xFFFFFF
         return rate is None
     if k == 'rc':
         return 0 <= e[1] <= 0xFFFF and 0 <= e[2] <= 0x7F
@@ -746,8 +758,9 @@ def canon_simple(e, std):
             return 'linkControl %d -' % e[1]
         if e[1] == 1:
             fixed = {9600: 1, 19200: 2, 38400: 3, 57600: 4, 115200: 5, 125000: 0x10, 250000: 0x11, 500000: 0x12, 1000000: 0x13}
-            return 'linkControl 1 %02x' % fixed[e[2]]
-        return 'linkControl %d %s' % (e[1], e[2].to_bytes(3, 'big').hex())
+            return 'linkControl 1 %02x' % (e[2] if e[3] == 'i' else fixed[e[2]])
+        rate = BAUD_BY_ID[e[2]] if e[3] == 'i' else e[2]
+        return 'linkControl %d %s' % (e[1], rate.to_bytes(3, 'big').hex())
     if k == 'rc':
         return 'routine %d %d %s' % (e[2], e[1], hx(e[3] or b''))
     if k == 'td':
